@@ -83,7 +83,7 @@ def run_B(prog, cfg, schedule=None):
                     d["class_state_after"] = dump.class_state()
                     if cfg.get("keys"):
                         d = {"keys": sent_keys(m, rec), "results": d["results"], "inner_status": d["inner_status"],
-                             "n_points": d["n_points"], "n_exprs": d["n_exprs"]}
+                             "n_points": d["n_points"], "n_exprs": d["n_exprs"], "solver_problem_size": d.get("solver_problem_size")}
                     obs["solves"].append(d)
     if cfg.get("eval_null"):
         from PEPit.point import null_point
